@@ -168,6 +168,16 @@ impl MultiProgress {
     }
 
     fn internalize(&self, location: InsertLocation, pb: ProgressBar) -> ProgressBar {
+        // Adding a progress bar that is already a member of this `MultiProgress` has no effect
+        // (the bar lock is released again before the lock of the `MultiState` is taken)
+        let is_member = match pb.state().draw_target.remote() {
+            Some((state, _)) => Arc::ptr_eq(&self.state, state),
+            None => false,
+        };
+        if is_member {
+            return pb;
+        }
+
         let mut state = self.state.write().unwrap();
         let idx = state.insert(location);
         drop(state);
